@@ -72,6 +72,51 @@ def minimise(binA, binB, rp, tmp, budget_s=60):
     return rp, True
 
 
+def batchdigest(binary, ID, SEED, runs):
+    r = subprocess.run([binary, "batchdigest", "--prop", ID, "--seed", str(SEED), "--runs", ",".join(str(x) for x in runs)],
+                       capture_output=True, text=True, timeout=600)
+    for line in r.stdout.splitlines():
+        if line.startswith("BATCHDIGEST"):
+            return line
+    return None
+
+
+def seqdigests(binary, ID, SEED, limit):
+    r = subprocess.run([binary, "digest", "--prop", ID, "--seed", str(SEED), "--runs", str(limit), "--threads", "1", "--full"],
+                       capture_output=True, text=True, timeout=1800)
+    m = {}
+    for line in r.stdout.splitlines():
+        p = line.split()
+        if len(p) == 2 and p[0].isdigit():
+            m[int(p[0])] = p[1]
+    return m
+
+
+def batch_fallback(ID, SEED, nameA, binA, nameB, binB, path, limit=3000):
+    a = seqdigests(binA, ID, SEED, limit)
+    b = seqdigests(binB, ID, SEED, limit)
+    diffs = sorted(i for i in set(a) | set(b) if a.get(i) != b.get(i))
+    if not diffs:
+        return None
+    last = diffs[0]
+    runs = None
+    for j in range(last - 1, max(-1, last - 300), -1):
+        if batchdigest(binA, ID, SEED, [j, last]) != batchdigest(binB, ID, SEED, [j, last]):
+            runs = [j, last]
+            break
+    if runs is None:
+        runs = list(range(0, last + 1))
+        if batchdigest(binA, ID, SEED, runs) == batchdigest(binB, ID, SEED, runs):
+            return None
+    rp = {"engine": "buildmatrix-batch", "property": ID, "batch_seed": int(SEED), "runs": runs,
+          "configurations": {nameA: binA, nameB: binB},
+          "violation": {"kind": "event_log_differs_between_builds",
+                        "detail": "generated runs executed one after the other on one thread in a fresh process: the event log of the last one differs between [%s] and [%s]" % (nameA, nameB)}}
+    json.dump(rp, open(path, "w"), indent=1)
+    print("batch replay: runs %s differ sequentially" % runs[:4])
+    return rp
+
+
 def cmd_compare(argv):
     ID, TIER, SEED, OUT = argv[:4]
     cfgs = []
@@ -125,8 +170,18 @@ def cmd_compare(argv):
         if os.path.exists(tmp):
             os.remove(tmp)
         if not ok:
-            print("HARNESS-ERROR: the dumped op list of run %d does not reproduce the difference" % idx)
-            rc = 2
+            # the difference depends on state that earlier runs left behind in the process (a static
+            # or thread-local that exists in one build only): the reproducible unit is a sequence of
+            # runs executed on one thread in a fresh process
+            print("note: the op list of run %d alone does not reproduce the difference; looking for a sequence of runs" % idx)
+            rp3 = batch_fallback(ID, SEED, base_name, base_bin, name, binary, path)
+            if rp3 is None:
+                print("HARNESS-ERROR: the difference between [%s] and [%s] does not reproduce sequentially either" % (base_name, name))
+                rc = 2
+                break
+            print("VIOLATION property=%s replay=%s" % (ID, path))
+            part["violations"] = 1
+            rc = 1
             break
         rp2["violation"]["detail"] = "event logs of [%s] and [%s] differ for this op list" % (base_name, name)
         json.dump(rp2, open(path, "w"), indent=1)
@@ -144,6 +199,22 @@ def cmd_replay(argv):
     path = argv[0]
     rp = json.load(open(path))
     cfgs = rp.get("configurations", {})
+    if rp.get("engine") == "buildmatrix-batch":
+        bins = []
+        for name in cfgs:
+            r = subprocess.run([os.path.join(VERIF, "check"), "--build-cfg", name], capture_output=True, text=True)
+            if r.returncode != 0:
+                print("HARNESS-ERROR: cannot build configuration %s" % name)
+                return 2
+            bins.append(r.stdout.strip().splitlines()[-1])
+        da = batchdigest(bins[0], rp["property"], rp["batch_seed"], rp["runs"])
+        db = batchdigest(bins[1], rp["property"], rp["batch_seed"], rp["runs"])
+        if da == db:
+            print("replay: event logs agree in %s" % ", ".join(cfgs))
+            return 0
+        print("replay: after runs %s the event logs of %s differ" % (rp["runs"][:4], " and ".join(cfgs)))
+        print("VIOLATION property=%s replay=%s" % (rp["property"], path))
+        return 1
     if len(cfgs) != 2:
         print("HARNESS-ERROR: replay file names %d configurations" % len(cfgs))
         return 2
